@@ -14,7 +14,7 @@ PROPS = {
                        "moves next: an interleaving is a shrinkable, replayable value. (S) Stress mode: 1-3 real gateway processes on one storage, 2-10 "
                        "parallel clients with 1-6 operations each, no hooks, monotonic clock stamps. Oracle for both: every 200 read must carry the body, "
                        "length, ETag, metadata and content type of one single write (else: torn read), and the history with its real-time order must be "
-                       "linearizable for a register holding 'absent' or a write (refused writes / deletes may or may not have taken effect). A third of the scheduled cases stall one operation after k of its steps until the others are through; uploads declare a CRC32 and most reads ask for it (the checksum must belong to the same write); one write is the empty object. A quarter of the cases run with a versions store and bucket versioning enabled; writers are stalled as well as readers. Reads also come as server-side copies of the key to a key of the operation's own (what arrives there is what the copy read: it must be body, ETag and metadata of one write). Every write comes with a tag set of its own and GetObjectTagging is one of the reads (during the race and once after it). (D) the key is a directory object, told apart by user metadata and tag set alone, raced by PUT / DELETE / GET / HEAD / GetObjectTagging of itself and by uploads and deletes of the key below it (which create and prune its directory); operations may pause right before a step of a chosen kind (an attribute written by path, the open of a read, a rename). HEAD with checksum mode is a read too (every checksum header must belong to the same write); the initial object may come from a multipart upload."),
+                       "linearizable for a register holding 'absent' or a write (refused writes / deletes may or may not have taken effect). A third of the scheduled cases stall one operation after k of its steps until the others are through; uploads declare a CRC32 and most reads ask for it (the checksum must belong to the same write); one write is the empty object. A quarter of the cases run with a versions store and bucket versioning enabled; writers are stalled as well as readers. Reads also come as server-side copies of the key to a key of the operation's own (what arrives there is what the copy read: it must be body, ETag and metadata of one write). Every write comes with a tag set of its own and GetObjectTagging is one of the reads (during the race and once after it). (D) the key is a directory object, told apart by user metadata and tag set alone, raced by PUT / DELETE / GET / HEAD / GetObjectTagging of itself and by uploads and deletes of the key below it (which create and prune its directory); operations may pause right before a step of a chosen kind (an attribute written by path, the open of a read, a rename). HEAD with checksum mode is a read too (every checksum header must belong to the same write); the initial object may come from a multipart upload. In buckets that keep versions every version the race left behind is read by id afterwards and judged like any other read (complete body of one write with that write's ETag and metadata)."),
         "level_note": "interleavings are explored at hook granularity (steps between two hooks are atomic for the explorer); the stress mode does not depend on hook placement. Versioned buckets and the sidecar metadata store are not part of this check. Exploration only.",
         "rule": ("case = (temp-file strategy, gateways, initial state, operations, schedule). Non-trivial: at least two operations were in flight together "
                  "(A) / a write overlapped another client's operation (S); distinct by the full case including the schedule."),
@@ -307,7 +307,7 @@ PROPS = {
                        "date skew/scope/expiry ...) x body kind (none, small, 64 KiB, aws-chunked, declared-but-short). The damaged request must "
                        "be answered 4xx, leave the snapshot of root+versioning+sidecar+IAM+outside directories unchanged and disclose no canary; "
                        "the undamaged twin shows whether the route does anything for a valid caller. In-process engine (fresh gateway + fixture per "
-                       "case) for volume, the shipped binary for the real wiring. Presigned requests carry an x-id parameter; presigned defects include a date ahead of the clock and a signed value that now ends in a URL delimiter followed by another parameter. Further defects: the right signature in another written form (case, appended text), an altered body accompanied by a fitting Content-MD5, bodies sent with chunked transfer coding (no announced length)."),
+                       "case) for volume, the shipped binary for the real wiring. Presigned requests carry an x-id parameter; presigned defects include a date ahead of the clock and a signed value that now ends in a URL delimiter followed by another parameter. Further defects: the right signature in another written form (case, appended text), an altered body accompanied by a fitting Content-MD5, bodies sent with chunked transfer coding (no announced length). Round 7: two more kinds of damage - one letter of the path replaced by the text of its percent escape (decoded once another key, decoded twice the signed one) and two signed query parameters merged into one whose name contains '=' and '&'; both were accepted for presigned URLs on the pinned tree (repaired)."),
         "level_note": "Defect kinds include a duplicated signed header (second occurrence with another value) and an alteration confined to the data of the last aws-chunked chunk; a second Host / Content-Type / X-Amz-Date is not judged (single-valued in the HTTP layer resp. replaced by the verifier before use). a damaged request that still carries a correct proof according to the harness' signer is discarded and counted, never judged; a presigned URL dated in the future is not treated as a defect (the statement does not list it). Exploration only.",
         "rule": ("case = (config, catalogue op, bucket, key, slash, caller, header/presign, body kind, defect, arg, short). Non-trivial: the undamaged twin "
                  "succeeded (in-process) / the catalogue marks the route as mutating (real process); distinct by (op, bucket, key, slash, defect, body, presign, short, engine)."),
@@ -371,7 +371,7 @@ PROPS = {
                        "nesting, explicit directory objects, keys that are prefixes of others) are listed with generated prefix / delimiter "
                        "(incl. multi-character and non-'/') / max-keys / marker; the concatenation of the pages obtained by following the returned "
                        "markers must equal the S3 listing rule's sequence exactly once, each page <= max-keys and ascending, pagination must "
-                       "terminate, bookkeeping names never appear, sizes and ETags are the objects' (layer B). Prefixes include strings that are no paths (//, /a/, x//, ./). Also: names equal to the bookkeeping directory's below the top level, prefixes into the bookkeeping directory with an upload in progress. A quarter of the end-to-end buckets keep versions (enabled, or suspended half way): deleted keys leave delete markers, overwritten ones archived versions - neither is a key, nor does a prefix that holds nothing else exist."),
+                       "terminate, bookkeeping names never appear, sizes and ETags are the objects' (layer B). Prefixes include strings that are no paths (//, /a/, x//, ./). Also: names equal to the bookkeeping directory's below the top level, prefixes into the bookkeeping directory with an upload in progress. A quarter of the end-to-end buckets keep versions (enabled, or suspended half way): deleted keys leave delete markers, overwritten ones archived versions - neither is a key, nor does a prefix that holds nothing else exist. Directory objects with keys below them are part of the generated key sets under every delimiter; the gateway's omission of exactly those objects is the open finding, any other difference of such a listing is a violation."),
         "level_note": "model/listing.go is the oracle; where S3 leaves a choice (marker strictly inside a common-prefix group) both sequences are accepted. Preconditions of the posix mapping are generator constraints (file/directory clash; a directory object with children is only a prefix under delimiter listings; plain empty directories are not reachable through the API).",
         "rule": ("cases = (files, explicit directory objects, prefix, delimiter, marker, max-keys[, V1/V2, raw max-keys]). Non-trivial: the listing has "
                  ">= 2 pages, or the delimiter groups keys, or directory-walk order differs from key order; distinct by the full tuple."),
